@@ -1252,7 +1252,18 @@ def run_one(harness, prefix, res, profile=False, witness_every=0, timeout_ms=300
         res.not_modelled += 1
         res.errors.append(dict(kind="not_modelled", why=str(e), trace=p.trace[:30]))
         status = "not_modelled"
-    except (HarnessError, Concretized) as e:
+    except Concretized as e:
+        # a symbolic value reached C code (float()/hash()/index()): this path cannot be decided symbolically.
+        # Fall back to its witness: the runner replays it concretely on the real build and evaluates the
+        # obligations there; the path itself stays inconclusive.
+        try:
+            w = p.witness_inputs()
+        except (Abort, Inconclusive):
+            w = None
+        res.errors.append(dict(kind="Concretized", why=str(e), trace=p.trace[:30], witness=w,
+                               tb=traceback.format_exc()[-1500:]))
+        status = "error"
+    except HarnessError as e:
         res.errors.append(dict(kind=type(e).__name__, why=str(e), trace=p.trace[:30],
                                tb=traceback.format_exc()[-1500:]))
         status = "error"
